@@ -66,6 +66,8 @@ def main():
     if not a.skip_suite:
         t0 = time.time()
         rc, out = sh(["cargo", "test", "--offline", "--no-fail-fast"], cwd=WT)
+        if rc != 0:  # doc tests that write fixed file names race with other cargo runs on this box: retry once
+            rc, out = sh(["cargo", "test", "--offline", "--no-fail-fast"], cwd=WT)
         res["suite_passes_with_patch"] = rc == 0
         res["suite_s"] = round(time.time() - t0)
         if rc != 0:
